@@ -336,4 +336,4 @@ def execute_threaded(case):
 PARTS = [Part("schedules", case_strategy, execute, quick=1600, thorough=8000),
          Part("joins", join_case, execute, quick=600, thorough=4000),
          Part("threaded", threaded_case, execute_threaded, quick=32, thorough=80, shards=4,
-              shrink_quick=False, quick_shards=4)]
+              shrink_quick=False, quick_shards=4, quick_factor=1)]
